@@ -61,6 +61,11 @@ pub struct AppCall {
 pub struct Arrival {
     pub seq: usize,
     pub time: u64,
+    /// when the exchange was finished (later than `time` only in split-phase)
+    pub time_done: u64,
+    /// global order in which the server took the datagram up / finished it
+    pub tick_begin: u64,
+    pub tick_done: u64,
     pub from: Ep,
     pub tag: Tag,
     /// the bytes delivered differ from the bytes the client sent
@@ -219,6 +224,7 @@ pub struct Server {
     pub dead: bool,
     /// (arrival seq, entries held after it) when cfg.record_held
     pub held_log: Vec<(usize, Vec<(Ep, u8, Vec<String>)>)>,
+    pub tick: u64,
 }
 
 /// Block option of a message object, decoded from its raw option bytes with
@@ -367,7 +373,7 @@ impl Server {
             max_total_message_size: cfg.budget,
             cache_expiry_duration: Duration::from_nanos(cfg.expiry_ns),
         });
-        Server { cfg, handler, app: App::new(), log: Vec::new(), violations: Vec::new(), last_b2_size: BTreeMap::new(), dead: false, held_log: Vec::new() }
+        Server { cfg, handler, app: App::new(), log: Vec::new(), violations: Vec::new(), last_b2_size: BTreeMap::new(), dead: false, held_log: Vec::new(), tick: 0 }
     }
 
     #[cfg(feature = "hooks")]
@@ -423,6 +429,9 @@ impl Server {
         let mut arr = Arrival {
             seq,
             time,
+            time_done: time,
+            tick_begin: 0,
+            tick_done: 0,
             from,
             tag,
             corrupted,
@@ -445,6 +454,9 @@ impl Server {
             reply: None,
             bytes_len: bytes.len(),
         };
+        self.tick += 1;
+        arr.tick_begin = self.tick;
+        arr.tick_done = self.tick;
         if self.dead {
             self.push(arr);
             return Step::Done(None);
@@ -575,7 +587,9 @@ impl Server {
         let Pending { mut arr, mut req, mut pending_err, req_mid, req_token, key, bytes, from, tag, corrupted, net_dup, fields } = p;
         let bytes = &bytes[..];
         let seq = self.log.len();
-        arr.time = arr.time.max(0);
+        arr.time_done = time;
+        self.tick += 1;
+        arr.tick_done = self.tick;
         // ---- application + intercept_response ------------------------
         if arr.ireq == Some(HOut::Pass) {
             let call = self.app.handle(&mut req);
